@@ -75,6 +75,12 @@ pub struct Plan {
     pub tasks: Vec<(usize, usize, u64)>,
     /// exit code of one task (command index, target index), if any
     pub fail: Option<(u16, u16, i32)>,
+    /// bit k of the mask: task k ends stdout (even k) / stderr (odd k) without a final newline
+    #[serde(default)]
+    pub unterminated: u32,
+    /// bit k: the lines of task k are written in two parts with a pause longer than the flush tick in between
+    #[serde(default)]
+    pub split_lines: u32,
 }
 
 #[derive(Debug, Clone, Serialize, Deserialize)]
@@ -91,13 +97,17 @@ pub fn plan(max_layer: usize, chatty: bool) -> impl Strategy<Value = Plan> {
         1usize..=2,
         vec((0usize..=5, 0usize..=4, if chatty { 60u64..=250 } else { 0u64..=40 }), 12),
         proptest::option::weighted(0.2, (any::<u16>(), any::<u16>(), 1i32..=9)),
+        prop_oneof![1 => Just(0u32), 2 => any::<u32>()],
+        prop_oneof![2 => Just(0u32), 1 => any::<u32>().prop_map(|x| x & 0x1111_1111)],
     )
-        .prop_map(|(layers, picks, ncmd, tasks, fail)| Plan {
+        .prop_map(|(layers, picks, ncmd, tasks, fail, unterminated, split_lines)| Plan {
             layers,
             picks,
             ncmd,
             tasks,
             fail,
+            unterminated,
+            split_lines,
         })
 }
 
@@ -154,6 +164,10 @@ pub struct Setup {
 }
 
 pub fn install(env: &Env, plan: &Plan, tag_lines: bool) -> Setup {
+    // C20 speaks about newline-terminated text: no unterminated tails there, but split lines;
+    // C15 compares stored logs: unterminated tails welcome
+    let allow_unterminated = !tag_lines;
+    let tag_lines_only_whole = false;
     let cfg = gen::layered_config(&plan.layers, &plan.picks);
     env.install_config(&cfg);
     let commands: Vec<String> = (0..plan.ncmd).map(|i| format!("c{}", i)).collect();
@@ -165,23 +179,41 @@ pub fn install(env: &Env, plan: &Plan, tag_lines: bool) -> Setup {
         for (ti, t) in cfg.targets.iter().enumerate() {
             let (no, ne, pause) = plan.tasks[k % plan.tasks.len()];
             k += 1;
-            let mk = |stream: &str, lines: usize| -> Vec<Step> {
+            let task_no = k - 1;
+            let split = !tag_lines_only_whole && plan.split_lines >> (task_no % 32) & 1 == 1;
+            let mk = |stream: &str, lines: usize, unterminated: bool| -> Vec<Step> {
                 let mut v = vec![];
                 for j in 0..lines {
+                    let last = j + 1 == lines;
+                    let nl = if last && unterminated { "" } else { "\n" };
                     let line = if tag_lines {
-                        format!("{}¦{}¦{}¦{}\n", t.path, c, stream, j)
+                        format!("{}¦{}¦{}¦{}{}", t.path, c, stream, j, nl)
                     } else {
-                        format!("{} {} {} line {}\n", t.path, c, stream, j)
+                        format!("{} {} {} line {}{}", t.path, c, stream, j, nl)
                     };
-                    v.push(Step::W(line.into_bytes()));
+                    let bytes = line.into_bytes();
+                    if split && j == 0 && bytes.len() > 4 {
+                        // one line written in two parts, the flush tick fires in between
+                        let cut = bytes.len() / 2;
+                        // keep UTF-8 sequences whole
+                        let mut cut = cut;
+                        while cut < bytes.len() && (bytes[cut] & 0xC0) == 0x80 {
+                            cut += 1;
+                        }
+                        v.push(Step::W(bytes[..cut].to_vec()));
+                        v.push(Step::P(620));
+                        v.push(Step::W(bytes[cut..].to_vec()));
+                    } else {
+                        v.push(Step::W(bytes));
+                    }
                     if pause > 0 {
                         v.push(Step::P(pause));
                     }
                 }
                 v
             };
-            let out = mk("stdout", no);
-            let err = mk("stderr", ne);
+            let out = mk("stdout", no, allow_unterminated && plan.unterminated >> ((2 * task_no) % 32) & 1 == 1);
+            let err = mk("stderr", ne, allow_unterminated && plan.unterminated >> ((2 * task_no + 1) % 32) & 1 == 1);
             let exit = match plan.fail {
                 Some((fc, ft, code)) if pick(fc, plan.ncmd) == ci && pick(ft, n) == ti => code,
                 _ => 0,
@@ -412,6 +444,8 @@ pub fn check_c15(case: &Case, w: usize) -> CheckResult {
         })
         .class_if(mid_run && connected, "died-mid-run-while-connected")
         .class_if(case.plan.fail.is_some(), "plan-with-failing-task")
+        .class_if(case.plan.unterminated != 0, "unterminated-output")
+        .class_if(case.plan.split_lines != 0, "split-lines")
         .inv(env.invocations))
 }
 
@@ -428,6 +462,7 @@ pub struct TailCase {
 pub fn strategy_c20(max_layer: usize) -> impl Strategy<Value = TailCase> {
     (plan(max_layer, false), filters(0), proptest::sample::select(vec![1usize, 2, 4, 8])).prop_map(|(mut plan, filters, tw)| {
         plan.fail = None;
+        plan.unterminated = 0;
         // bursts around the flush tick: a few tasks pause close to 500 ms
         for (i, t) in plan.tasks.iter_mut().enumerate() {
             if i % 4 == 0 {
@@ -580,6 +615,7 @@ pub fn check_c20(case: &TailCase, w: usize) -> CheckResult {
         .class_if(max_group >= 12, "group>=12")
         .class_if(admitted_nonempty == 0, "nothing-admitted")
         .class_if(streams.len() == 2, "both-streams-printed")
+        .class_if(case.plan.split_lines != 0, "lines-split-across-the-flush-tick")
         .class(&format!("tokio-workers={}", case.tokio_workers))
         .inv(env.invocations))
 }
@@ -587,7 +623,7 @@ pub fn check_c20(case: &TailCase, w: usize) -> CheckResult {
 pub fn run_c15(ctx: &mut Ctx) {
     ctx.hang_limit = Duration::from_secs(400);
     ctx.shrink_budget = Duration::from_secs(40);
-    ctx.rule = "a run plan (1-3 layered groups x 1-3 targets x 1-2 commands, chatty tasks writing 0-5 lines per stream with 60-350 ms pauses, 20% with one failing task) executed twice in the same repository: \
+    ctx.rule = "a run plan (1-3 layered groups x 1-3 targets x 1-2 commands, chatty tasks writing 0-5 lines per stream with 60-250 ms pauses, lines split by a 620 ms pause, final lines without newline, 20% with one failing task) executed twice in the same repository: \
 without a listener and with one of {absent, real `monorail log tail` with generated filters, harness-owned fake listener} under a fault {none, killed before the run, killed/closed after 20-1200 ms, \
 closed after 1-600 received bytes, accepted then closed before the handshake}. oracle (differential): equal exit status, failed flag, (status, code) per (command,target) and byte-equal decoded stored logs. \
 non-trivial = the listener was connected and died in the middle of the run; distinct by SHA-256"
@@ -601,7 +637,7 @@ pub fn run_c20(ctx: &mut Ctx) {
     ctx.hang_limit = Duration::from_secs(400);
     ctx.shrink_budget = Duration::from_secs(40);
     ctx.rule = "a run with up to 3 layered groups of up to 8 (quick) / 24 (thorough) concurrently writing tasks, both streams, newline-terminated UTF-8 lines tagged target¦command¦stream¦seq, bursts and pauses around the \
-flush tick, tokio worker threads in {1,2,4,8}, under a real `monorail log tail` with stream/target/command filters. readiness by polling /proc/net/tcp, completion by a sentinel client connected after the run. \
+flush tick, some lines written in two parts 620 ms apart, tokio worker threads in {1,2,4,8}, under a real `monorail log tail` with stream/target/command filters. readiness by polling /proc/net/tcp, completion by a sentinel client connected after the run. \
 oracle: output = stream header, then header-introduced blocks; every line's tag agrees with its block header; per (stream,target,command) the concatenated blocks equal the stored log; blocks only for admitted keys and for every \
 admitted non-empty log. non-trivial = a group of >= 4 tasks and a filter that excludes something; distinct by SHA-256"
         .to_string();
